@@ -83,7 +83,7 @@ InList(x, list, row) ==
 
 Eval(e, row) ==
   CASE e.k = "lit"  -> e.v
-    [] e.k = "col"  -> row[e.i]
+    [] e.k = "col"  -> IF e.i \in DOMAIN row THEN row[e.i] ELSE ErrV
     [] e.k = "not"  -> Not3(Eval(e.e, row))
     [] e.k = "neg"  -> LET a == Eval(e.e, row) IN IF a.t \in {"n", "e"} THEN a ELSE [t |-> a.t, v |-> -a.v]
     [] e.k = "and"  -> And3(Eval(e.l, row), Eval(e.r, row))
